@@ -111,8 +111,15 @@ def make_pred(task):
         elif task == "melody":
             kw.pop("est_voicing", None)
             kw.pop("ref_reward", None)
-            if not any(f > 0 for f in ref["freq"]):
-                ctx.skip("no voiced frame")
+            from oracles import melody as omel
+            try:
+                rv_, _, _, _ = omel.to_cent_voicing(ref["time"], ref["freq"], ref["time"], ref["freq"], hop=kw.get("hop"), kind=kw.get("kind", "linear"))
+            except omel.NearestTie:
+                ctx.skip("nearest-interpolation tie")
+                return False
+            if not any(v > 0 for v in rv_):
+                # non-degenerate means: at least one voiced frame on the time base that is actually scored (after hop resampling)
+                ctx.skip("no voiced frame (after resampling)")
                 return False
             size = len(ref["freq"])
             want = {"Voicing Recall": 1, "Voicing False Alarm": 0, "Raw Pitch Accuracy": 1, "Raw Chroma Accuracy": 1, "Overall Accuracy": 1}
